@@ -154,10 +154,23 @@ func runC19(c *Ctx) {
 			continue
 		}
 		impl := implSelect(sels, name)
-		c.Correspond("selector-malformed", join("selector", strings.Join(sels, "|"), name), impl, true)
+		c.Correspond("selector-malformed", join("selector", selEnc(sels), selEnc([]string{name})), impl, true)
 		c.Class("malformed:" + map[bool]string{true: "panic", false: "ok"}[impl == "panic"])
 	}
 	c19API(c)
+}
+
+// selEnc writes selectors for the driver line; the empty string is spelled "<>" so that a
+// trailing empty field survives the line protocol.
+func selEnc(sels []string) string {
+	out := make([]string, len(sels))
+	for i, s := range sels {
+		if s == "" {
+			s = "<>"
+		}
+		out[i] = s
+	}
+	return strings.Join(out, "|")
 }
 
 func c19API(c *Ctx) {
